@@ -194,6 +194,40 @@ def blame_keys(tree, lost):
     return tuple(sorted(keys))
 
 
+def precluster(tree, lost):
+    """cheap key before shrinking.  Expressions with typefaces get a coarse key (which literal kinds / typefaces are lost): the typeface
+    machinery works on the whole braille string, so the position of the literal says little; a loss that has nothing to do with typefaces
+    shows in the (majority of) expressions without any as well and is keyed by position there."""
+    lostset = set(lost)
+    styled_lost = sorted(set("%s,%s" % (n.attrs["mathvariant"], "whole" if n.text.isdigit() else "decimal")
+                             for n, _ in tree.walk() if n.tag == "mn" and n.text in lostset and n.attrs.get("mathvariant")))
+    if styled_lost:
+        return ("styled-literal",) + tuple(styled_lost[:2])
+    if any(n.kids is None and n.attrs.get("mathvariant") for n, _ in tree.walk()):
+        return ("plain-literal-in-styled-expression",)
+    return blame_keys(tree, lost)
+
+
+def pred_under_element(v, params):
+    """every lost literal of the witness sits below an element params['tag'] whose attribute params['attr'] contains params['contains']"""
+    w = v["witness"]
+    if w["cfg"]["code"] != params["code"] or w.get("history"):
+        return False
+    tree = B.from_xml(w["mathml"])
+    with B.Session(w["cfg"]) as sess:
+        kind, lost, _, _ = judge_tree(sess, tree)
+    if kind != "lost-operand":
+        return False
+    below = set()
+    for node, _ in tree.walk():
+        if node.tag == params["tag"] and params["contains"] in node.attrs.get(params["attr"], ""):
+            below.update(n.text for n, _ in node.walk() if n.tag == "mn")
+    return set(lost) <= below
+
+
+core.PREDICATES["c06_under_element"] = pred_under_element
+
+
 def error_root(detail):
     """stable summary of an error chain: innermost rule and the root cause"""
     pats = re.findall(r'attempting replacement pattern: "([^"]*)" for "([^"]*)"', detail)
@@ -243,7 +277,7 @@ def observe(st, cfg, name, tree, lits, res, i, tag=""):
 
 def report_plain(st, seen_pre, cfg, tree, kind, lost, detail):
     """a violation that shows in a session of its own: pre-cluster, shrink, sign"""
-    pre = (kind, cfg["code"], blame_keys(tree, lost) if lost else error_root(detail))
+    pre = (kind, cfg["code"], precluster(tree, lost) if lost else error_root(detail))
     st.count("raw_violations_" + kind)
     if pre in seen_pre:
         return
